@@ -21,6 +21,7 @@ import (
 // that reads Config.SummarizeOnDemand without UnsafeIgnoreNonSummarized is a
 // violation.
 func c05build(c *core.Ctx, r *core.Report) {
+	r.Explain("R05.build: every call that builds a missing summary in the taint traversal (helpers inlined) is control dependent - in its function and at the call sites leading to it - on no condition that reads Config.SummarizeOnDemand without UnsafeIgnoreNonSummarized.")
 	root := c.Func("analysis/taint", "Visitor.Visit")
 	if root == nil {
 		r.Fail("infra.anchor-unresolved", "R05.build|analysis/taint.Visitor.Visit", "", "not found")
